@@ -164,4 +164,4 @@ func (t *vtimer) Reset(d time.Duration) bool {
 type vticker vtimer
 
 func (t *vticker) C() <-chan time.Time { return t.ch }
-func (t *vticker) Stop()              { (*vtimer)(t).Stop() }
+func (t *vticker) Stop()               { (*vtimer)(t).Stop() }
